@@ -22,6 +22,7 @@ mod c13;
 mod c16;
 mod c17;
 mod c19;
+mod c20;
 mod pat;
 
 use engine::*;
@@ -55,6 +56,7 @@ fn props() -> Vec<Prop> {
         Prop { id: "C16", run: c16::run, replay: c16::replay, meta: c16::meta, workers: (8, 16), also_release: false },
         Prop { id: "C17", run: c17::run, replay: c17::replay, meta: c17::meta, workers: (4, 16), also_release: false },
         Prop { id: "C19", run: c19::run, replay: c19::replay, meta: c19::meta, workers: (4, 16), also_release: false },
+        Prop { id: "C20", run: c20::run, replay: c20::replay, meta: c20::meta, workers: (2, 16), also_release: false },
         Prop { id: "C10", run: c10::run, replay: c10::replay, meta: c10::meta, workers: (1, 16), also_release: false },
     ]
 }
